@@ -138,18 +138,7 @@ func (v view) apply(c connSpec, items []mItem) []mItem {
 	}
 	if v.hasSortBy {
 		out = append([]mItem(nil), out...)
-		less := func(a, b Attr) bool {
-			switch v.sortType {
-			case "n":
-				return a.N < b.N
-			case "s":
-				return a.S < b.S
-			case "f":
-				return a.F < b.F
-			default:
-				return a.U < b.U
-			}
-		}
+		less := func(a, b Attr) bool { return lessBy(v.sortType, a, b) }
 		desc := v.hasSortOrder && v.desc
 		// insertion sort: obviously stable, lists are short
 		for i := 1; i < len(out); i++ {
@@ -177,23 +166,63 @@ func (v view) hasDupSortValues(l []mItem) bool {
 	}
 	seen := map[interface{}]bool{}
 	for _, it := range l {
-		var k interface{}
-		switch v.sortType {
-		case "n":
-			k = it.attr.N
-		case "s":
-			k = it.attr.S
-		case "f":
-			k = it.attr.F
-		default:
-			k = it.attr.U
-		}
+		k := sortKey(v.sortType, it.attr)
 		if seen[k] {
 			return true
 		}
 		seen[k] = true
 	}
 	return false
+}
+
+// lessBy compares two sort values of the given kind EXACTLY in their own
+// type (no conversion to a common numeric type).
+func lessBy(typ string, a, b Attr) bool {
+	switch typ {
+	case "n":
+		return a.N < b.N
+	case "s":
+		return a.S < b.S
+	case "f":
+		return a.F < b.F
+	case "u":
+		return a.U < b.U
+	case "b":
+		return a.B < b.B
+	case "w":
+		return a.W < b.W
+	case "i":
+		return a.I < b.I
+	case "v":
+		return a.V < b.V
+	case "g":
+		return a.G < b.G
+	}
+	panic("unknown sort kind " + typ)
+}
+
+func sortKey(typ string, a Attr) interface{} {
+	switch typ {
+	case "n":
+		return a.N
+	case "s":
+		return a.S
+	case "f":
+		return a.F
+	case "u":
+		return a.U
+	case "b":
+		return a.B
+	case "w":
+		return a.W
+	case "i":
+		return a.I
+	case "v":
+		return a.V
+	case "g":
+		return a.G
+	}
+	panic("unknown sort kind " + typ)
 }
 
 // pageArgs are the Relay arguments; cursors are given as the *position* they
